@@ -95,6 +95,22 @@ def cross_check(sample):
     return out
 
 
+def engine_selftest():
+    """vacuity guard of the discharge pipeline itself: a deliberately false obligation must come back `failed`, a true
+    quantified one `proved` (otherwise nothing this run reports can be believed => exit 3)"""
+    import z3
+
+    from pyvc import quant
+
+    x = z3.Int("selftest_x")
+    a = z3.Const("selftest_a", z3.ArraySort(z3.IntSort(), z3.BoolSort()))
+    i = z3.Int("selftest_i")
+    bad, _m, _s = quant.check([x > 0], x > 1, 5000)
+    good, _m, _s = quant.check([z3.ForAll([i], z3.Implies(z3.Select(a, i), i >= 0)), z3.Select(a, x)], x >= 0, 5000)
+    badq, _m, _s = quant.check([z3.ForAll([i], z3.Implies(z3.Select(a, i), i >= 0))], z3.ForAll([i], z3.Implies(z3.Select(a, i), i >= 1)), 5000)
+    return {"false_obligation_refuted": bad == "sat", "true_quantified_obligation_proved": good == "unsat", "false_quantified_obligation_refuted": badq == "sat"}
+
+
 def main() -> int:
     ap = argparse.ArgumentParser()
     ap.add_argument("prop")
@@ -104,6 +120,10 @@ def main() -> int:
     prop, tier = args.prop, args.tier
     seed = int(os.environ.get("VERIF_SEED", "0") or 0)
     t0 = time.time()
+    selftest = engine_selftest()
+    if not all(selftest.values()):
+        print("ENGINE-SELFTEST-FAILED", selftest)
+        return 3
     if tier == "thorough":
         os.environ.setdefault("VERIF_SMT2_SAMPLE_MOD", "8")
     units = [u for u in load_units() if prop in u.props]
@@ -150,7 +170,12 @@ def main() -> int:
     proved = [o for o in goals if o["verdict"] == "proved"]
     failed = [o for o in goals if o["verdict"] == "failed"]
     unknown = [o for o in goals if o["verdict"] == "unknown"]
-    vacuous = [o for o in covers if o["verdict"] == "vacuous"]
+    # a cover (reach:<point>) is emitted on every path that arrives at the point; the point is vacuous only if the
+    # hypotheses of ALL those paths are contradictory (single infeasible paths are normal)
+    by_cover = {}
+    for o in covers:
+        by_cover.setdefault((o["unit"], o["name"]), []).append(o["verdict"])
+    vacuous = [{"name": k[1], "unit": k[0]} for k, vs in by_cover.items() if all(v == "vacuous" for v in vs)]
     known_hits = {}
     violations = []
     attributed_unknown = []
@@ -275,7 +300,8 @@ def main() -> int:
             "functions_under_contract": funcs,
             "by_backend": by_backend,
             "solver_time_s": round(sum(o["ms"] for o in obls) / 1000.0, 2),
-            "reach_covers": {"total": len(covers), "vacuous": len(vacuous)},
+            "reach_covers": {"points": len(by_cover), "paths_checked": len(covers), "vacuous_points": len(vacuous)},
+            "engine_selftest": selftest,
             "exhaustive_enumerations": native_info,
             "extraction_drops": front.EXTRACTION_DROPS,
             "assumed_contracts": registry.ASSUMED_CONTRACTS,
